@@ -224,7 +224,65 @@ def arrayfree_ensures(S0, S, r):
 StrArrayFree = Spec("ShroudStrArrayFree", arrayfree_requires, arrayfree_ensures, invariants={0: arrayfree_inv},
                     decreases={0: lambda S0, S: S0.i("nsrc") - S.i("i")})
 
-SPECS = {"ShroudStrArrayAlloc": StrArrayAlloc, "ShroudStrArrayFree": StrArrayFree, "ShroudLenTrim": LenTrim, "ShroudStrCopy": StrCopy, "ShroudStrBlankFill": StrBlankFill,
+# ---------------------------------------------------------------------------------------------- copy_string / copy_array
+# Called from Fortran with the array descriptor a wrapper filled in: copy the payload out, then release what the
+# capsule owns -- on EVERY path, exactly once (C06); never read or write outside the two buffers (C06/C10).
+REL0 = z3.Const("ghost_released0", z3.ArraySort(I, I))
+
+
+def _min(a, b):
+    return z3.If(a < b, a, b)
+
+
+def _released_once(S0, S, r):
+    d = S0.p("data")
+    b = z3.Int("rb")
+    return [("released-exactly-once", z3.Select(S.released, d.blk) == z3.Select(REL0, d.blk) + 1),
+            ("nothing-else-released", z3.ForAll([b], z3.Implies(b != d.blk, z3.Select(S.released, b) == z3.Select(REL0, b))))]
+
+
+def _writes_only(S0, S, dest, nbytes):
+    j = z3.Int("wj")
+    return [("other-blocks-unchanged", unchanged_other_blocks(S0, S, [dest.blk])),
+            ("writes-inside-destination", z3.ForAll([j], z3.Implies(z3.Or(j < dest.off, j >= dest.off + nbytes),
+             z3.Select(z3.Select(S.mem.bytes, dest.blk), j) == z3.Select(z3.Select(S0.mem.bytes, dest.blk), j))))]
+
+
+def copystring_requires(S):
+    d, c, n = S.p("data"), S.p("c_var"), S.i("c_var_len")
+    src, el = S.fptr("addr.ccharp", d), S.fint("elem_len", d)
+    k = _min(n, el)
+    # an empty payload has a NULL address (ShroudStrToArray); a zero-length Fortran variable may have any address
+    return [d.blk > 0, z3.Select(S.mem.live, d.blk), el >= 0, z3.Or(k == 0, S.valid(c, n)), z3.Or(k == 0, S.valid(src, el)),
+            z3.Implies(el > 0, src.blk != 0), z3.Or(k == 0, c.blk != src.blk), c.blk != d.blk]
+
+
+CopyString = Spec("copy_string", copystring_requires,
+                  lambda S0, S, r: _released_once(S0, S, r) + _writes_only(S0, S, S0.p("c_var"), S0.i("c_var_len")))
+
+
+def copyarray_requires(S):
+    d, c, n = S.p("data"), S.p("c_var"), S.i("c_var_size")
+    src, el, sz = S.fptr("addr.base", d, "void"), S.fint("elem_len", d), S.fint("size", d)
+    k = _min(n, sz)
+    return [d.blk > 0, z3.Select(S.mem.live, d.blk), el >= 0, sz >= 0,
+            # stated limit of the helper: the byte count is computed in `int`
+            k <= INT_MAX, k * el <= INT_MAX,
+            # an empty std::vector is described by a NULL base address and size 0 (statement rows c_vector_*_buf)
+            z3.Implies(sz > 0, src.blk != 0),
+            z3.Or(k * el == 0, z3.And(S.valid(c, k * el), S.valid(src, k * el), c.blk != src.blk, c.blk != 0)),
+            c.blk != d.blk]
+
+
+def copyarray_ensures(S0, S, r):
+    d = S0.p("data")
+    k = _min(S0.i("c_var_size"), S0.fint("size", d)) * S0.fint("elem_len", d)
+    return _released_once(S0, S, r) + _writes_only(S0, S, S0.p("c_var"), k)
+
+
+CopyArray = Spec("copy_array", copyarray_requires, copyarray_ensures)
+
+SPECS = {"copy_string": CopyString, "copy_array": CopyArray, "ShroudStrArrayAlloc": StrArrayAlloc, "ShroudStrArrayFree": StrArrayFree, "ShroudLenTrim": LenTrim, "ShroudStrCopy": StrCopy, "ShroudStrBlankFill": StrBlankFill,
          "ShroudStrAlloc": StrAlloc, "ShroudStrFree": StrFree}
 
 
@@ -242,6 +300,7 @@ def helper_texts(tabs):
 
 
 EXTRA = {}
+STRUCT_NAMES = ("LIB_SHROUD_array", "LIB_SHROUD_capsule_data")
 
 
 def build(tabs, prop):
@@ -250,7 +309,7 @@ def build(tabs, prop):
     parsed = {}
     for (name, lang), src in sorted(texts.items()):
         try:
-            fns = Parser(src).functions()
+            fns = Parser(src, typenames=STRUCT_NAMES).functions()
             parsed[(name, lang)] = fns[0]
         except CSubsetError as e:
             parsed[(name, lang)] = "out of subset: %s" % e
